@@ -575,6 +575,7 @@ def rw_optlib(tl):
        io::CustomWriter::new(|_| Result::Ok(()))        => custom_writer_null()
        &mut stdin()                                     => &mut io_stdin()
        V[I..].to_vec()                                  => vec_suffix_to_vec(&V, I)
+       W.write_all(X.to_string()?.as_bytes())?          => io_write_str(&mut W, X.to_string()?)?
        R.extend(S.chars().map(|x| Num::from_num(x as isize)))  => vec_extend_chars_num(R, S)
        for (I, X) in V.iter().enumerate() { B }         => let mut I__k: usize = 0; while I__k < V.len() {
                                                                let I = I__k; let X = &V[I__k]; I__k += 1; B }"""
@@ -583,6 +584,7 @@ def rw_optlib(tl):
         ("io::CustomWriter::new(|_| Result::Ok(()))", "custom_writer_null()"),
         ("&mut stdin()", "&mut io_stdin()"),
         ("$I[$I2..].to_vec()", "vec_suffix_to_vec(&$I, $I2)"),
+        ("$I.write_all($I2.to_string()?.as_bytes())?", "io_write_str(&mut $I, $I2.to_string()?)?"),
     ])
     out = []
     i = 0
